@@ -107,7 +107,7 @@ FindBlock(W, cls, b) ==
 \* value of an absolute scalar path, U when it does not exist (e.g. index beyond the list)
 Val(C, p) == IF p \in DOMAIN C.env THEN C.env[p] ELSE U
 
-RECURSIVE Eval(_, _, _), HoldsBlock(_, _, _), Holds3(_, _), HoldsAll(_, _), SumRec(_, _, _, _, _),
+RECURSIVE Eval(_, _, _), HoldsBlock(_, _, _), Holds3(_, _), HoldsAll(_, _), SumRec(_, _, _, _, _), ProdRec(_, _, _, _),
           ItemsHold(_, _, _, _), EvalIn(_, _)
 
 \* compare x against lo..hi (closed) in the common type of the three
@@ -144,6 +144,12 @@ SumRec(C, lp, i, w, acc) ==
   ELSE LET v == Val(C, ElemPath(lp, i)) IN
        IF IsU(v) THEN U ELSE SumRec(C, lp, i + 1, w, Add(acc, Ext(v, w, C.W.lists[lp].s)))
 
+\* mathematical product of the exposed elements, computed at a working width ww that cannot overflow (see Eval)
+ProdRec(C, lp, i, acc) ==
+  IF i >= C.sz[lp] THEN acc
+  ELSE LET v == Val(C, ElemPath(lp, i)) IN
+       IF IsU(v) THEN U ELSE ProdRec(C, lp, i + 1, Mul(acc, Ext(v, Len(acc), C.W.lists[lp].s)))
+
 Eval(C, e, cw) ==
   CASE e.k = "f"   -> Val(C, AbsP(C.own, e.p))
     [] e.k = "it"  -> Val(C, IF e.p = "" THEN C.bind[e.v].p ELSE C.bind[e.v].p \o "." \o e.p)
@@ -166,6 +172,13 @@ Eval(C, e, cw) ==
     [] e.k = "size" -> NatBits(C.sz[AbsP(C.own, e.l)], 32)
     [] e.k = "sum" -> LET w == MaxN(cw, C.W.lists[AbsP(C.own, e.l)].w + 8) IN
                       SumRec(C, AbsP(C.own, e.l), 0, w, Zero(w))
+    [] e.k = "prod" ->
+         \* the library multiplies at 64 bits; the product of n elements of width ew fits n * ew bits, so it is computed
+         \* exactly at that width and extended.  The product of an EMPTY list is left undefined (the library says 0).
+         LET lp == AbsP(C.own, e.l)
+             ww == C.sz[lp] * C.W.lists[lp].w + 1
+             p  == ProdRec(C, lp, 0, NatBits(1, ww))
+         IN IF C.sz[lp] = 0 \/ ww > 24 \/ IsU(p) THEN U ELSE Ext(p, MaxN(cw, 64), C.W.lists[lp].s)
     [] e.k = "bin" ->
          LET w  == MaxN(cw, MaxN(WidthOf(C, e.l), WidthOf(C, e.r)))
              sg == SignedOf(C, e.l) /\ SignedOf(C, e.r)
